@@ -259,7 +259,7 @@ def components_from_lines(ctx):
 
 
 @case("C15", "components.lattice", [], kind="bounded", functions=["geometer.curve.QuadricTensor.components", "geometer.curve.QuadricTensor.from_planes", "geometer.curve.Conic.intersect"],
-      bound="all pairs of distinct planes / lines with coordinates in {-2,-1,1,2} (sampled every 7th pair); conic pairs: 12 circle/ellipse/hyperbola pairs with known common points")
+      bound="pairs of distinct planes with coordinates in {-2,-1,1,2} (every 97th pair), all pairs of distinct lines with coordinates in {-2,...,2} (zeros included); conic pairs: 12 circle/ellipse/hyperbola pairs with known common points")
 def components_lattice(ctx):
     import geometer as g
     from geometer.curve import Quadric, Conic
@@ -282,13 +282,14 @@ def components_lattice(ctx):
         except NotReducible:
             ok, got = False, "NotReducible"
         ctx.ensure("from_planes-components-are-the-two-planes", ok, witness=dict(e=e, f=f, got=got), excuse=("KF-C15-1", None))
-    lines = list(itertools.product(vals, repeat=3))
+    lines = [v for v in itertools.product((-2, -1, 0, 1, 2), repeat=3) if any(v)]
     for gl, hl in itertools.combinations(lines, 2):
         G, H = g.Line(*gl), g.Line(*hl)
         if G == H:
             continue
         comp = Conic.from_lines(G, H).components
-        ok = len(comp) == 2 and ((comp[0] == G and comp[1] == H) or (comp[0] == H and comp[1] == G))
+        # the zero vector compares equal to everything: reject it explicitly
+        ok = len(comp) == 2 and all(np.abs(c.array).max() > 1e-9 for c in comp) and ((comp[0] == G and comp[1] == H) or (comp[0] == H and comp[1] == G))
         ctx.ensure("from_lines-components-are-the-two-lines", ok, witness=dict(g=gl, h=hl, got=[c.array.tolist() for c in comp]))
     nd = Quadric(np.diag([1, 1, 1, -1]))
     try:
@@ -299,7 +300,7 @@ def components_lattice(ctx):
     ctx.ensure("non-degenerate-quadric-not-reducible", ok and not bool(nd.is_degenerate), witness="unit sphere")
 
 
-@case("C13", "constructors.lattice", [], kind="bounded", also=("C03",), share=True,
+@case("C13", "constructors.lattice", [], kind="bounded", also=("C03",),
       functions=["geometer.curve.Conic.from_tangent", "geometer.curve.Conic.from_foci", "geometer.curve.Conic.foci", "geometer.curve.Circle.center", "geometer.curve.Sphere.__init__",
                  "geometer.curve.Ellipse.__init__", "geometer.curve.Cone.__init__", "geometer.curve.Cylinder.__init__"],
       bound="spheres/circles/ellipses with INTEGER-typed centres and fractional radii (dtype handling), 24 points of each locus; from_tangent for the 24 orders of 4 circle points "
@@ -356,9 +357,9 @@ def constructors_lattice(ctx):
                     ok = bool(co == base)
                 except Exception as e:
                     ok = False
-                ctx.ensure("from_tangent:independent-of-the-representatives", ok, witness=dict(tangent=tangent.array.tolist(), point=k, scale=sc))
+                ctx.ensure("C03:from_tangent:independent-of-the-representatives", ok, witness=dict(tangent=tangent.array.tolist(), point=k, scale=sc), prop="C03")
         co = Conic.from_tangent(g.Line(-2 * tangent.array), *[g.Point(*q) for q in gp])
-        ctx.ensure("from_tangent:independent-of-the-representatives", bool(co == base), witness=dict(tangent="negated"))
+        ctx.ensure("C03:from_tangent:independent-of-the-representatives", bool(co == base), witness=dict(tangent="negated"), prop="C03")
     for f1, f2, b in [((-1, 0), (1, 0), (0, 1)), ((0, 0), (4, 0), (2, 3)), ((1, 1), (3, 2), (0, 5)), ((-2, 1), (2, -1), (3, 3)), ((0, 0), (0, 6), (1, 3)), ((-1, 0), (1, 0), (3, 0.5))]:
         try:
             co = Conic.from_foci(g.Point(*f1), g.Point(*f2), g.Point(*b))
@@ -395,3 +396,158 @@ def constructors_lattice(ctx):
                     oky = False
                     w_ = dict(w_, error="%s: %s" % (type(e).__name__, e))
                 ctx.ensure("cylinder:locus", oky, witness=w_, excuse=("KF-C13-1", None))
+
+
+def _on_conic(c, x, rel=1e-8):
+    A = np.asarray(c.array, dtype=complex)
+    v = np.asarray(x.array, dtype=complex)
+    return abs(v @ A @ v) <= rel * np.abs(A).max() * np.abs(v).max() ** 2
+
+
+@case("C15", "conic.conic.lattice", [], kind="bounded", functions=["geometer.curve.Conic.intersect", "geometer.utils.math.roots", "geometer.curve.QuadricTensor.components"],
+      bound="30 pairs of conics through 4 common lattice points in general position (each conic fixed by a fifth point), plus circle/ellipse pairs with 2 and 0 real common points")
+def conic_conic_lattice(ctx):
+    import geometer as g
+    from geometer.curve import Conic, Circle, Ellipse
+
+    quads = [[(0, 0), (4, 0), (1, 3), (5, 2)], [(1, 1), (-2, 0), (0, -3), (3, -1)], [(0, 2), (2, 0), (-3, 1), (1, -4)], [(-1, -1), (2, 3), (4, -2), (0, 5)], [(2, 2), (-2, 1), (-1, -3), (3, -2)]]
+    fifth = [(7, 7), (-5, 6), (6, -5), (-4, -6), (1, 9), (9, 1)]
+    for Q in quads:
+        for e1, e2 in itertools.combinations(fifth, 2):
+            try:
+                c1 = Conic.from_points(*[g.Point(*p) for p in Q], g.Point(*e1))
+                c2 = Conic.from_points(*[g.Point(*p) for p in Q], g.Point(*e2))
+                if bool(c1.is_degenerate) or bool(c2.is_degenerate) or c1 == c2:
+                    continue
+                pts = c1.intersect(c2)
+                on_both = all(_on_conic(c1, x) and _on_conic(c2, x) for x in pts)
+                found = all(any(x == g.Point(*p) for x in pts) for p in Q)
+                ok = len(pts) <= 4 and on_both and found
+                got = [np.round(np.asarray(x.normalized_array, dtype=complex), 4).tolist() for x in pts]
+            except Exception as e:
+                ok, got = False, "%s: %s" % (type(e).__name__, e)
+            ctx.ensure("conic-x-conic:the-four-common-points", ok, witness=dict(common=Q, fifth=(e1, e2), got=str(got)[:300]))
+    for (c, r, c2_, r2) in [((0, 0), 2, (3, 0), 2), ((0, 0), 2, (1, 1), 1.5), ((1, -1), 3, (2, 2), 1)]:
+        a, b = Circle(g.Point(*c), r), Circle(g.Point(*c2_), r2)
+        try:
+            pts = a.intersect(b)
+            real = [x for x in pts if bool(x.isreal) and not bool(x.isinf)]
+            dcc = float(np.hypot(c[0] - c2_[0], c[1] - c2_[1]))
+            want_real = 2 if abs(r - r2) < dcc < r + r2 else 0
+            ok = len(pts) <= 4 and all(_on_conic(a, x) and _on_conic(b, x) for x in pts) and len(real) == want_real
+            got = len(real)
+        except Exception as e:
+            ok, got = False, "%s: %s" % (type(e).__name__, e)
+        ctx.ensure("circle-x-circle:real-common-points", ok, witness=dict(c1=(c, r), c2=(c2_, r2), got=got))
+
+
+def _quadric_line_fixtures():
+    import geometer as g
+    from geometer.curve import Quadric, Sphere, Cone, Cylinder
+
+    out = []
+    out.append(("sphere", Sphere(g.Point(0, 0, 0), 3), [(1, 2, 2), (2, 1, 2), (2, 2, 1), (3, 0, 0), (-1, 2, 2), (0, 0, -3), (2, -2, 1)]))
+    out.append(("sphere.offcentre", Sphere(g.Point(1, -1, 2), 3), [(2, 1, 4), (3, 0, 4), (3, 1, 3), (4, -1, 2), (1, -1, -1), (0, 1, 4)]))
+    out.append(("cone.matrix", Quadric(np.diag([1, 1, -1, 0])), [(3, 4, 5), (4, 3, 5), (0, 1, 1), (1, 0, -1), (5, 12, 13), (-3, 4, -5)]))
+    out.append(("cone.class", Cone(g.Point(0, 0, 0), g.Point(0, 0, 1), 1), [(3, 4, 5), (4, 3, 5), (0, 1, 1), (1, 0, -1), (5, 12, 13), (-3, 4, -5)]))
+    out.append(("cylinder.class", Cylinder(g.Point(0, 0, 0), g.Point(0, 0, 1), 5), [(3, 4, 0), (4, 3, 2), (5, 0, -1), (0, 5, 3), (-3, 4, 1), (-4, -3, 7)]))
+    out.append(("hyperboloid", Quadric(np.diag([1, 1, -1, -1])), [(1, 0, 0), (0, 1, 0), (1, 1, 1), (1, -1, 1), (-1, 0, 0), (1, 1, -1), (5, 5, 7)]))
+    out.append(("ellipsoid.generic", Quadric([[2, 1, 0, 0], [1, 3, 0, 0], [0, 0, 1, 0], [0, 0, 0, -7]]), [(1, 1, 0), (-1, -1, 0), (0, 1, 2), (0, -1, -2), (-2, 1, 0), (1, -1, 2), (-1, 1, -2)]))
+    out.append(("planes", Quadric.from_planes(g.Plane(1, 2, 3, 4), g.Plane(4, 3, 2, 1)), [(-4, 0, 0), (0, -2, 0), (0, 1, -2), (1, -1, -1), (0, 0, -0.5), (-1, 1, 0)]))
+    return out
+
+
+def _on_quadric(Q, x, rel=1e-7):
+    A = np.asarray(Q.array, dtype=complex)
+    v = np.asarray(x.array, dtype=complex)
+    if np.abs(v).max() == 0:
+        return False
+    return abs(v @ A @ v) <= rel * np.abs(A).max() * np.abs(v).max() ** 2
+
+
+def _on_line_through(p, q, x, rel=1e-7):
+    m = np.array([list(p) + [1], list(q) + [1], np.asarray(x.array, dtype=complex)], dtype=complex)
+    m = m / np.abs(m).max(axis=1, keepdims=True)
+    sv = np.linalg.svd(m, compute_uv=False)
+    return sv[2] <= rel * sv[0]
+
+
+def _same_point(x, p, rel=1e-6):
+    a = np.asarray(x.array, dtype=complex)
+    b = np.array(list(p) + [1], dtype=complex)
+    m = np.array([a / np.abs(a).max(), b / np.abs(b).max()])
+    sv = np.linalg.svd(m, compute_uv=False)
+    return sv[1] <= rel * sv[0]
+
+
+@case("C14", "quadric.line.3d.lattice", [], kind="bounded",
+      functions=["geometer.curve.QuadricTensor.intersect", "geometer.curve.QuadricTensor.components", "geometer.point.SubspaceTensor._matrix_transform", "geometer.point.PlaneTensor.basis_matrix"],
+      bound="8 quadrics in 3D (2 spheres, cone by matrix and by class, cylinder, one-sheeted hyperboloid, ellipsoid with a mixed term, pair of planes) x all secants through pairs of "
+            "6-7 known rational points each, 2 tangents of the sphere, 3 lines missing the sphere; collections: every pair of quadrics (also mixing reducible and irreducible degenerate ones) "
+            "x LineCollection and x single Line")
+def quadric_line_3d_lattice(ctx):
+    import geometer as g
+    from geometer.curve import QuadricCollection
+
+    fx = _quadric_line_fixtures()
+    singles = {}
+    for name, Q, pts in fx:
+        for p, q in itertools.combinations(pts, 2):
+            mid = g.Point(*[(a + b) / 2.0 for a, b in zip(p, q)])
+            if _on_quadric(Q, mid):
+                continue  # the line lies on the (ruled) quadric
+            L = g.Line(g.Point(*p), g.Point(*q))
+            w = dict(quadric=name, line=(p, q))
+            try:
+                res = Q.intersect(L)
+            except Exception as e:
+                ctx.ensure("secant:no-exception", False, witness=dict(w, exception="%s: %s" % (type(e).__name__, e)))
+                continue
+            w["got"] = str([np.round(np.asarray(x.array, dtype=complex), 4).tolist() for x in res])[:300]
+            ctx.ensure("secant:points-on-both", len(res) <= 2 and all(_on_quadric(Q, x) and _on_line_through(p, q, x) for x in res), witness=w)
+            ctx.ensure("secant:returns-the-two-known-points", all(any(_same_point(x, k) for x in res) for k in (p, q)), witness=w)
+            singles[(name, p, q)] = res
+    S = fx[0][1]
+    for (p, d) in [((1, 2, 2), (2, -1, 0)), ((3, 0, 0), (0, 1, 1))]:
+        q = tuple(a + b for a, b in zip(p, d))
+        res = S.intersect(g.Line(g.Point(*p), g.Point(*q)))
+        ctx.ensure("tangent:only-the-contact-point", 1 <= len(res) <= 2 and all(_same_point(x, p, 1e-4) for x in res), witness=dict(at=p, direction=d, got=str([x.array.tolist() for x in res])[:300]))
+    for (p, q) in [((5, 0, 0), (5, 1, 1)), ((0, 4, 4), (1, 4, 4)), ((-4, -4, 0), (-4, -3, 7))]:
+        res = S.intersect(g.Line(g.Point(*p), g.Point(*q)))
+        ok = len(res) == 2 and all(_on_quadric(S, x) and _on_line_through(p, q, x) for x in res) and not any(bool(np.all(x.isreal)) for x in res)
+        ctx.ensure("missing:two-complex-points-on-both", ok, witness=dict(line=(p, q), got=str([np.asarray(x.array).tolist() for x in res])[:300]))
+    # collections: element k of the result is the intersection of element k
+    for (n1, Q1, P1), (n2, Q2, P2) in itertools.combinations(fx, 2):
+        pairs1 = [k for k in singles if k[0] == n1][:2]
+        pairs2 = [k for k in singles if k[0] == n2][:2]
+        for k1, k2 in zip(pairs1, pairs2):
+            w = dict(quadrics=(n1, n2), lines=(k1[1:], k2[1:]))
+            QC = QuadricCollection([Q1.array, Q2.array])
+            LC = g.LineCollection([g.Line(g.Point(*k1[1]), g.Point(*k1[2])).array, g.Line(g.Point(*k2[1]), g.Point(*k2[2])).array])
+            try:
+                res = QC.intersect(LC)
+                ok = len(res) == 2
+                for idx, (Q, k) in enumerate(((Q1, k1), (Q2, k2))):
+                    el = [r[idx] for r in res]
+                    ok = ok and all(_on_quadric(Q, x) and _on_line_through(k[1], k[2], x) for x in el) and all(any(_same_point(x, kp) for x in el) for kp in k[1:])
+                w["got"] = str([np.round(np.asarray(r.array, dtype=complex), 3).tolist() for r in res])[:300]
+            except Exception as e:
+                ok = False
+                w["exception"] = "%s: %s" % (type(e).__name__, e)
+            ctx.ensure("collection:elementwise-the-two-known-points", ok, witness=w)
+        # single line through a common known point pair is rarely available: use one line of Q1 against both quadrics and only demand points on both
+        k1 = pairs1[0]
+        L = g.Line(g.Point(*k1[1]), g.Point(*k1[2]))
+        w = dict(quadrics=(n1, n2), line=k1[1:])
+        try:
+            res = QuadricCollection([Q1.array, Q2.array]).intersect(L)
+            ok = len(res) <= 2
+            for idx, Q in enumerate((Q1, Q2)):
+                el = [r[idx] for r in res]
+                ok = ok and all(_on_quadric(Q, x) and _on_line_through(k1[1], k1[2], x) for x in el if np.abs(np.asarray(x.array)).max() > 0)
+            el0 = [r[0] for r in res]
+            ok = ok and all(any(_same_point(x, kp) for x in el0) for kp in k1[1:])
+        except Exception as e:
+            ok = False
+            w["exception"] = "%s: %s" % (type(e).__name__, e)
+        ctx.ensure("collection-x-single-line:points-on-both", ok, witness=w)
